@@ -52,7 +52,7 @@ func init() { Register(c02{}) }
 func (c02) ID() string       { return "C02" }
 func (c02) New() interface{} { return &C02Case{} }
 func (c02) Rule() string {
-	return "each run: an alignment of 1-10 rows whose length is drawn from the widths that straddle every writer line and block (10, 50, 60, 80, their neighbours and multiples) or at random, nucleotide or protein IUPAC residues in both cases with '-', '*', '?', names of 1-14 printable non-blank characters that the formats of the run can represent (<= 10 for strict Phylip; all-digit names included), and one of six modes: single (writer -> simulated stream -> parser), chain (2-4 formats in a row), file (utils.OpenWriteFile -> real temp file, plain/.gz/.xz -> utils.ReadAlign / GetReader), gzstream (gzip bytes through the simulated stream and GetReaderFromReader), auto (format detection), multi (1-25 Phylip alignments in one stream through ParseMultiAlignmentsAuto with the parser goroutine, every read of the simulated file, the consumer and the close under the seeded scheduler). Distinct = distinct (mode, formats and options, alignment shape, fragment plan or schedule hash); non-trivial = the alignment has at least 2 rows and 2 columns, or the stream holds at least 2 alignments."
+	return "each run: an alignment of 1-10 rows whose length is drawn from the widths that straddle every writer line and block (10, 50, 60, 80, their neighbours and multiples) or at random, nucleotide or protein IUPAC residues in both cases with '-', '*', '?', names of 1-14 printable non-blank characters that the formats of the run can represent (<= 10 for strict Phylip; all-digit names included), and one of seven modes: single (writer -> simulated stream -> parser), chain (2-4 formats in a row), file (utils.OpenWriteFile -> real temp file, plain/.gz/.xz -> utils.ReadAlign / GetReader), gzstream (gzip bytes through the simulated stream and GetReaderFromReader), auto (format detection), multifile (2-5 Phylip alignments of sizes on both sides of 4096 bytes written one after the other to one plain/.gz/.xz file and read back with ParseMultiAlignmentsAuto), multi (1-25 Phylip alignments in one stream through ParseMultiAlignmentsAuto with the parser goroutine, every read of the simulated file, the consumer and the close under the seeded scheduler). Distinct = distinct (mode, formats and options, alignment shape, fragment plan or schedule hash); non-trivial = the alignment has at least 2 rows and 2 columns, or the stream holds at least 2 alignments."
 }
 
 var c02Formats = []string{"fasta", "phylip", "phylip-strict", "nexus", "clustal", "stockholm"}
@@ -157,7 +157,7 @@ func genIOAln(r *Rand, formats []string, maxRows, maxLen int) AlnSpec {
 func (c02) Gen(rs uint64, tier string, race bool) interface{} {
 	r := NewRand(rs)
 	c := &C02Case{Seed: r.U64()}
-	c.Mode = r.PickS("single", "single", "single", "chain", "chain", "file", "gzstream", "auto", "multi", "multi")
+	c.Mode = r.PickS("single", "single", "single", "chain", "chain", "file", "gzstream", "auto", "multi", "multi", "multifile")
 	step := func(f string) C02Step {
 		s := C02Step{Format: f}
 		if strings.HasPrefix(f, "phylip") {
@@ -174,15 +174,34 @@ func (c02) Gen(rs uint64, tier string, race bool) interface{} {
 		for k := r.Range(2, 4); k > 0; k-- {
 			c.Steps = append(c.Steps, step(c02Formats[r.Intn(len(c02Formats))]))
 		}
-	case "multi":
+	case "multi", "multifile":
 		c.Steps = []C02Step{step(r.PickS("phylip", "phylip", "phylip-strict"))}
 	}
 	var fs []string
 	for _, s := range c.Steps {
 		fs = append(fs, s.Format)
 	}
-	if c.Mode == "file" {
+	if c.Mode == "file" || c.Mode == "multifile" {
 		c.Ext = r.PickS("", "", ".gz", ".gz", ".gz", ".gz", ".gz", ".xz")
+	}
+	if c.Mode == "multifile" {
+		// several alignments written one after the other to one file, of sizes on both sides of the
+		// 4096-byte buffers of the file layer
+		k := r.Range(2, 5)
+		for i := 0; i < k; i++ {
+			if r.Chance(0.4) {
+				c.Alns = append(c.Alns, genIOAln(r, fs, 40, 200))
+				for len(c.Alns[i].Names) < 25 { // make it large: more than 4096 bytes once written
+					c.Alns[i] = genIOAln(r, fs, 40, 200)
+				}
+			} else {
+				c.Alns = append(c.Alns, genIOAln(r, fs, 4, 30))
+			}
+			if i > 0 {
+				c.Steps = append(c.Steps, step(c.Steps[0].Format))
+			}
+		}
+		return c
 	}
 	c.Plan = genReadPlan(r)
 	if c.Mode == "multi" {
@@ -452,6 +471,62 @@ func (c02) Run(ctx *Ctx, ci interface{}) (o Outcome) {
 		o.Add("round_trips", 1)
 	case "multi":
 		c.runMulti(ctx, &o, fail)
+	case "multifile":
+		name := fmt.Sprintf("c02m-%d%s", os.Getpid(), c.Ext)
+		defer os.Remove(name)
+		w, err := utils.OpenWriteFile(name)
+		if err != nil {
+			panic("harness: " + err.Error())
+		}
+		var alphas []int
+		total := 0
+		for k := range c.Alns {
+			al, err := buildOriginal(&c.Alns[k])
+			if err != nil {
+				panic("harness: " + err.Error())
+			}
+			alphas = append(alphas, al.Alphabet())
+			text := c02Write(al, c.Steps[k%len(c.Steps)])
+			total += len(text)
+			if _, err := w.WriteString(text); err != nil {
+				fail("file:write-error"+c.Ext, "WriteString: %v", err)
+				return
+			}
+			if len(text) >= 4096 {
+				o.Add("probe_alignment_text_over_4096_bytes", 1)
+			}
+		}
+		utils.CloseWriteFile(w, name)
+		cl, rd, err := utils.GetReader(name)
+		if err != nil {
+			fail("roundtrip:parse-error:multifile"+c.Ext, "GetReader(%s): %v", name, err)
+			return
+		}
+		ac, _, err := utils.ParseMultiAlignmentsAuto(cl, rd, c.Steps[0].Format == "phylip-strict", align.BOTH)
+		if err != nil {
+			fail("roundtrip:parse-error:multifile"+c.Ext, "ParseMultiAlignmentsAuto: %v", err)
+			return
+		}
+		var got []align.Alignment
+		for al := range ac.Achan {
+			got = append(got, al)
+		}
+		if ac.Err != nil {
+			fail("roundtrip:parse-error:multifile"+c.Ext, "after %d of %d alignments of a %d-byte file: %v", len(got), len(c.Alns), total, ac.Err)
+			return
+		}
+		if len(got) != len(c.Alns) {
+			fail("multi:list-differs:file"+c.Ext, "%d alignments written to %s, %d read back", len(c.Alns), name, len(got))
+			return
+		}
+		for k := range got {
+			if d := sameAlignment(&c.Alns[k], alphas[k], got[k]); d != "" {
+				fail("multi:list-differs:file"+c.Ext, "alignment #%d of %d in %s: %s", k, len(got), name, d)
+				return
+			}
+		}
+		o.Add("round_trips", int64(len(got)))
+		o.Add("file_ext_"+strings.TrimPrefix(c.Ext+".plain", "."), 1)
 	}
 	return
 }
